@@ -1,2 +1,344 @@
+import NeatviVerif.Lemmas.C12Utf8
+/-!
+# C12: the literal fast path of `rstr.c` agrees with the general engine
+
+Property: a pattern that `rstr_make` handles by plain substring search (`^? \<? literal \>? $?`)
+yields, on every newline-terminated line and for every flag combination, the same answer and the
+same match offsets as the regular-expression engine (`rset_make`/`rset_find` on `((re))`), and
+reports every other group as unset; a pattern containing an operator is never taken as a literal.
+
+Contents: 1 `stop_covers_specials`, 2 `simple_has_no_operator`, 3 `fast_groups_unset`,
+4 `literal_find_spec`, 5 `simple_program_shape` (+ `simple_compiles`), 6 `straightline_run`,
+`fast_equals_engine_of_subjOk` (general, hypotheses on the subject explicit), its instances
+`fast_equals_engine_ascii` and `fast_equals_engine` (valid UTF-8, ICASE included).
+
+Hypotheses that exclude known deviations of the code (they are *not* proved away):
+* `lit ≠ []`: recorded deviation (i) — before the `cur != 0` repair of `^`, the engine also matched
+  the empty string after the final newline for `^` and `^$`; the empty literal is left out here;
+* `LitOk lit` / `lit = encStr lcps`: a literal that is not valid UTF-8 is split differently by the engine;
+* `10 ∉ lit` (found here): a literal containing a newline byte can match the line's final newline in
+  the engine, while the fast path never looks at the last byte of the subject
+  (e.g. pattern `a\n` on the line `a\n`: fast path `-1`, engine `(0, 2)`);
+* the pattern is a C string (no NUL byte), the line is `body ++ [10]` with no NUL/newline in `body`;
+* `nd ≥ 1` (the straight-line program needs recursion depth 1) and `ng ≥ 6` (marks 0..5 are recorded
+  only when `mark < ngrps`; the C constant is 64).
+-/
 namespace Neatvi.Props.C12
+open Neatvi Neatvi.Uc Neatvi.Regex Neatvi.Rset Neatvi.C12
+
+/-! ## 1. the stop set covers every byte the engine treats specially -/
+
+theorem stop_covers_specials :
+    (∀ c ∈ Gen.ratomSpecial, c ∈ Gen.rstrStop) ∧ (∀ c ∈ Gen.repChars, c ∈ Gen.rstrStop) := by
+  decide
+
+/-- a byte outside the stop set is neither special nor a repetition character for the engine -/
+theorem not_stop_not_special {c : Nat} (h : isStop c = false) :
+    Gen.ratomSpecial.contains c = false ∧ isRepChar c = false := by
+  have hc : ¬ c ∈ Gen.rstrStop := by
+    intro hm; simp [isStop, hm] at h
+  refine ⟨?_, ?_⟩
+  · cases h1 : Gen.ratomSpecial.contains c
+    · rfl
+    · exact absurd (stop_covers_specials.1 c (List.contains_iff_mem.mp h1)) hc
+  · unfold isRepChar
+    cases h1 : Gen.repChars.contains c
+    · rfl
+    · exact absurd (stop_covers_specials.2 c (List.contains_iff_mem.mp h1)) hc
+
+/-! ## 2. a pattern containing an operator is never taken as a literal -/
+
+/-- the classifier accepts exactly `^? (\<)? lit (\>)? $?` where no byte of `lit` is an operator of
+    the engine.  (`hnul`: the pattern is a C string; `isSpecial 0 = true` is the terminator.) -/
+theorem simple_has_no_operator {re : Bytes} {lbeg wbeg wend lend : Bool} {lit : Bytes}
+    (hnul : ∀ c ∈ re, c ≠ 0)
+    (h : simple re = some (lbeg, wbeg, wend, lend, lit)) :
+    (∀ c ∈ lit, isSpecial c = false ∧ isRepChar c = false) ∧
+    re = (if lbeg then [94] else []) ++ (if wbeg then [92, 60] else []) ++ lit ++
+         (if wend then [92, 62] else []) ++ (if lend then [36] else []) := by
+  obtain ⟨hre, hstop⟩ := simple_decomp h
+  refine ⟨?_, ?_⟩
+  · intro c hc
+    obtain ⟨h1, h2⟩ := not_stop_not_special (hstop c hc)
+    have h0 : c ≠ 0 := hnul c (by rw [hre]; simp [hc])
+    refine ⟨?_, h2⟩
+    unfold isSpecial
+    rw [h1]; simp [h0]
+  · rw [hre]; simp [pre, suf]
+
+/-- the same without the C-string hypothesis: no byte of the literal is in the engine's tables -/
+theorem simple_has_no_operator' {re : Bytes} {lbeg wbeg wend lend : Bool} {lit : Bytes}
+    (h : simple re = some (lbeg, wbeg, wend, lend, lit)) :
+    ∀ c ∈ lit, Gen.ratomSpecial.contains c = false ∧ isRepChar c = false :=
+  fun c hc => not_stop_not_special ((simple_decomp h).2 c hc)
+
+/-! ## 3. the fast path reports every group other than the whole match as unset -/
+
+theorem fast_groups_unset (rs : RStr) (hrs : rs.rs = none) (s : Bytes) (n flg nd ng : Nat)
+    (grps : List Int) (cuts : Nat) (hn : n ≥ 1)
+    (h : rstrFind rs s n flg nd ng = some (0, grps, cuts)) :
+    grps.length = 2 * n ∧
+    (∃ r : Nat, grps[0]? = some (r : Int) ∧ grps[1]? = some ((r + (rs.str.getD []).length : Nat) : Int)) ∧
+    ∀ i, 2 ≤ i → i < 2 * n → grps[i]? = some (-1) := by
+  unfold rstrFind at h
+  simp only [hrs] at h
+  split at h
+  · simp at h
+  · split at h
+    · simp at h
+    · split at h
+      · simp at h
+      · simp at h
+      · rename_i r _
+        simp only [Option.some.injEq, Prod.mk.injEq, true_and] at h
+        obtain ⟨h1, _⟩ := h
+        subst h1
+        refine ⟨by simp; omega, ⟨r, by simp, by simp⟩, ?_⟩
+        intro i h2 h3
+        obtain ⟨j, rfl⟩ : ∃ j, i = j + 2 := ⟨i - 2, by omega⟩
+        simp only [List.cons_append, List.nil_append, List.getElem?_cons_succ]
+        rw [List.getElem?_replicate]
+        rw [if_pos (by omega)]
+
+/-! ## 4. specification of the fast path by itself -/
+
+/-- `rstr_find` on a literal pattern returns the least offset `r` in the candidate range
+    (`InRange`: `r + len + 1 ≤ |s|`; only `r = 0`, and `RE_NOTBOL` clear, if `lbeg`; only
+    `r = |s| - len - 1` if `lend`) at which the literal compares equal (`matchCase`), the
+    word-start test holds if `wbeg` and the word-end test holds if `wend` (`Cand`); `-1` if there
+    is no such offset. -/
+theorem literal_find_spec (rs : RStr) (lit s : Bytes) (hrs : rs.rs = none) (hstr : rs.str = some lit)
+    (n flg nd ng : Nat) :
+    (∃ r, IsLeast (FastMatch rs lit s flg) r ∧
+        rstrFind rs s n flg nd ng = some (0, fastGroups n r lit.length, 0)) ∨
+    ((∀ r, ¬ FastMatch rs lit s flg r) ∧ rstrFind rs s n flg nd ng = some (-1, [], 0)) :=
+  rstrFind_literal rs lit s hrs hstr n flg nd ng
+
+/-! ## 5. the program the engine compiles for a literal pattern -/
+
+/-- `LitOk lit`: stepping through `lit` by `uc_len` of each lead byte lands exactly on its end
+    (true of ASCII text: `litOk_ascii`); it excludes recorded deviation (ii).
+    For such a pattern, `((re))` (what `rset_make` hands to `regcomp`) parses to two groups around the
+    right-nested concatenation `catOf` of the atoms `beg?, wbeg?, chr lit, wend?, end?` (`atomsOf`),
+    each matched exactly once.  Proved for all 16 anchor combinations. -/
+theorem simple_program_shape {re : Bytes} {lbeg wbeg wend lend : Bool} {lit : Bytes}
+    (hnul : ∀ c ∈ re, c ≠ 0)
+    (h : simple re = some (lbeg, wbeg, wend, lend, lit)) (hne : lit ≠ []) (hlo : LitOk lit) :
+    Regex.parse ([40, 40] ++ re ++ [41, 41]) =
+      some (some (RNode.grp (RNode.grp (catOf (atomsOf lbeg wbeg wend lend lit)) 0 1 1) 0 1 1)) :=
+  parse_literal hnul h hne hlo
+
+/-- the shape of `catOf`: one atom, or `cat` of the first atom and the rest -/
+theorem catOf_shape (a b : Atom) (t : List Atom) :
+    catOf [a] = RNode.atom a 1 1 ∧ catOf (a :: b :: t) = RNode.cat (RNode.atom a 1 1) (catOf (b :: t)) :=
+  ⟨rfl, rfl⟩
+
+/-- the literal-only instance, written out -/
+theorem simple_program_shape_plain {re : Bytes} (hnul : ∀ c ∈ re, c ≠ 0)
+    (h : simple re = some (false, false, false, false, re)) (hne : re ≠ []) (hlo : LitOk re) :
+    Regex.parse ([40, 40] ++ re ++ [41, 41]) =
+      some (some (RNode.grp (RNode.grp (RNode.atom ⟨AK.chr, re⟩ 1 1) 0 1 1) 0 1 1)) :=
+  parse_literal hnul h hne hlo
+
+/-- the compiled pattern set: `rset_make` succeeds and yields the straight-line program
+    `mark 0; mark 2; mark 4; atoms…; mark 5; mark 3; mark 1; match` with one set of zero inner groups -/
+theorem simple_compiles {re : Bytes} {lbeg wbeg wend lend : Bool} {lit : Bytes}
+    (hnul : ∀ c ∈ re, c ≠ 0)
+    (h : simple re = some (lbeg, wbeg, wend, lend, lit)) (hne : lit ≠ []) (hlo : LitOk lit) (cflg : Nat) :
+    ∃ alloc, Rset.make [some re] cflg =
+      some (some (litSet (atomsOf lbeg wbeg wend lend lit) alloc (progFlags cflg))) :=
+  make_literal hnul h hne hlo cflg
+
+/-! ## 6. the fast path and the engine agree -/
+
+/-- (a) the VM on the code of a concatenation of atoms, from one position: each atom in order -/
+theorem straightline_run (cx : Ctx) (as : List Atom) (pre post : List Inst)
+    (hp : cx.prog = pre ++ as.map Inst.atom ++ post) (dep pos : Nat) (m : Marks) (cuts : Nat) :
+    loop cx dep pre.length pos m cuts =
+      resBind (runAtoms cx.subj cx.flg as pos) cuts
+        (fun p' => loop cx dep (pre.length + as.length) p' m cuts) :=
+  Neatvi.C12.straightline_run cx as pre post hp dep pos m cuts
+
+/-- (b) without ICASE the literal atom is `match_case` -/
+theorem chr_atom_is_matchCase {s lit : Bytes} {flg r : Nat} (hr : r ≤ s.length)
+    (hic : hasFlag flg REG_ICASE = false) :
+    atomMatch ⟨AK.chr, lit⟩ s flg r =
+      if matchCase (s.drop r) lit false = true then AR.ok (r + lit.length) else AR.fail :=
+  atomMatch_chr_nocase hr hic
+
+/-- **Main theorem, general form.**  For a literal pattern (`simple re = some …`) with a non-empty
+    literal (excludes recorded deviation (i)) that is a whole number of characters (`LitOk`, excludes
+    (ii)) and contains no newline byte, every line `body ++ [10]` without NUL and newline in `body`
+    that satisfies `SubjOk` (see there: character synchronisation, previous-character word test,
+    ICASE folding), every flag combination, every `n`, a depth limit of at least 1 and at least
+    6 mark slots: `rstr_find` on the fast-path descriptor and `rset_find` on the compiled pattern
+    return the same result — the same found/not-found answer, the same `(so, eo)`, all other
+    groups `-1`, and zero cuts. -/
+theorem fast_equals_engine_of_subjOk {re : Bytes} {lbeg wbeg wend lend : Bool} {lit : Bytes}
+    (hnul : ∀ c ∈ re, c ≠ 0)
+    (hs : simple re = some (lbeg, wbeg, wend, lend, lit)) (hne : lit ≠ []) (hlo : LitOk lit)
+    (hnl10 : ¬ 10 ∈ lit)
+    (cflg : Nat) (fastRs : RStr) (engineRs : RSet)
+    (hfast : rstrMake re cflg = some (some fastRs))
+    (heng : Rset.make [some re] cflg = some (some engineRs))
+    (body : Bytes) (hbody : ∀ c ∈ body, c ≠ 0 ∧ c ≠ 10)
+    (hok : SubjOk (body ++ [10]) lit (cflg &&& RE_ICASE != 0))
+    (n flg nd ng : Nat) (hnd : 1 ≤ nd) (hng : 6 ≤ ng) :
+    rstrFind fastRs (body ++ [10]) n flg nd ng = Rset.find engineRs (body ++ [10]) n flg nd ng := by
+  have hf : fastRs = fastOf lbeg wbeg wend lend lit cflg := by
+    unfold rstrMake at hfast
+    rw [hs] at hfast
+    simp only [Option.some.injEq] at hfast
+    exact hfast.symm
+  obtain ⟨alloc, hm⟩ := make_literal hnul hs hne hlo cflg
+  have he : engineRs = litSet (atomsOf lbeg wbeg wend lend lit) alloc (progFlags cflg) := by
+    rw [hm] at heng
+    simp only [Option.some.injEq] at heng
+    exact heng.symm
+  rw [hf, he]
+  exact agree_explicit lbeg wbeg wend lend lit cflg alloc hne hnl10 body hbody hok n flg nd ng hnd hng
+
+/-- **Main theorem, ASCII instance** (all hypotheses discharged; ICASE included): an ASCII literal
+    pattern on an ASCII line. -/
+theorem fast_equals_engine_ascii {re : Bytes} {lbeg wbeg wend lend : Bool} {lit : Bytes}
+    (hre : Ascii re)
+    (hs : simple re = some (lbeg, wbeg, wend, lend, lit)) (hne : lit ≠ []) (hnl10 : ¬ 10 ∈ lit)
+    (cflg : Nat) (fastRs : RStr) (engineRs : RSet)
+    (hfast : rstrMake re cflg = some (some fastRs))
+    (heng : Rset.make [some re] cflg = some (some engineRs))
+    (body : Bytes) (hbody : Ascii body) (hbnl : ¬ 10 ∈ body)
+    (n flg nd ng : Nat) (hnd : 1 ≤ nd) (hng : 6 ≤ ng) :
+    rstrFind fastRs (body ++ [10]) n flg nd ng = Rset.find engineRs (body ++ [10]) n flg nd ng := by
+  have hlit : Ascii lit := by
+    intro c hc
+    apply hre
+    rw [(simple_decomp hs).1]
+    simp [hc]
+  have hsub : Ascii (body ++ [10]) := by
+    intro c hc
+    rcases List.mem_append.mp hc with h | h
+    · exact hbody c h
+    · simp at h; omega
+  exact fast_equals_engine_of_subjOk (fun c hc => by have := (hre c hc).1; omega) hs hne
+    (litOk_ascii lit hlit) hnl10 cflg fastRs engineRs hfast heng body
+    (fun c hc => ⟨by have := (hbody c hc).1; omega, fun h => hbnl (h ▸ hc)⟩)
+    (subjOk_ascii hsub hlit hne _) n flg nd ng hnd hng
+
+/-- **Main theorem** (`fast_equals_engine`): valid UTF-8.  The pattern `re` is a C string that the
+    classifier takes as a literal; the literal is the UTF-8 encoding of a non-empty list of valid code
+    points (excludes recorded deviations (i) and (ii)) none of which is a newline; the line is the
+    UTF-8 encoding of valid code points other than newline, followed by the newline.  Then for every
+    compile flag `cflg` (ICASE or not), every execution flag `flg` (NOTBOL/NOTEOL), every `n`, depth
+    limit `nd ≥ 1` and `ng ≥ 6` mark slots, `rstr_find` on the fast-path descriptor and `rset_find`
+    on the compiled pattern return the same result: same found/not-found, same `(so, eo)`, every
+    other group `-1`, zero cuts. -/
+theorem fast_equals_engine {re : Bytes} {lbeg wbeg wend lend : Bool} {lcps : List Nat}
+    (hnul : ∀ c ∈ re, c ≠ 0)
+    (hs : simple re = some (lbeg, wbeg, wend, lend, Spec.encStr lcps))
+    (hne : lcps ≠ []) (hl : ∀ c ∈ lcps, Spec.ValidCp c ∧ c ≠ 10)
+    (cflg : Nat) (fastRs : RStr) (engineRs : RSet)
+    (hfast : rstrMake re cflg = some (some fastRs))
+    (heng : Rset.make [some re] cflg = some (some engineRs))
+    (bcps : List Nat) (hb : ∀ c ∈ bcps, Spec.ValidCp c ∧ c ≠ 10)
+    (n flg nd ng : Nat) (hnd : 1 ≤ nd) (hng : 6 ≤ ng) :
+    rstrFind fastRs (Spec.encStr bcps ++ [10]) n flg nd ng =
+      Rset.find engineRs (Spec.encStr bcps ++ [10]) n flg nd ng := by
+  have hlv : ∀ c ∈ lcps, Spec.ValidCp c := fun c hc => (hl c hc).1
+  have hbv : ∀ c ∈ bcps, Spec.ValidCp c := fun c hc => (hb c hc).1
+  have hlne : Spec.encStr lcps ≠ [] := by
+    cases lcps with
+    | nil => exact absurd rfl hne
+    | cons c t =>
+      rw [Spec.encStr_cons]
+      have := Uc.enc_ne_nil c
+      intro h
+      exact this (List.append_eq_nil_iff.mp h).1
+  have hbv' : ∀ c ∈ bcps ++ [10], Spec.ValidCp c := by
+    intro c hc
+    rcases List.mem_append.mp hc with h | h
+    · exact hbv c h
+    · simp at h; subst h; decide
+  have hok : SubjOk (Spec.encStr bcps ++ [10]) (Spec.encStr lcps) (cflg &&& RE_ICASE != 0) := by
+    rw [encStr_snoc_nl]
+    exact subjOk_utf8 hbv' hlv hne _
+  exact fast_equals_engine_of_subjOk hnul hs hlne (litOk_encStr hlv) (encStr_no_nl hl) cflg fastRs engineRs
+    hfast heng (Spec.encStr bcps)
+    (fun c hc => ⟨by have := (Uc.encStr_wf hbv c hc).1; omega, fun h => encStr_no_nl hb (h ▸ hc)⟩)
+    hok n flg nd ng hnd hng
+
+/-- the same as a closed proposition (the form announced in the task), and its proof -/
+def fast_equals_engine_full : Prop :=
+  ∀ (re : Bytes) (lbeg wbeg wend lend : Bool) (lcps bcps : List Nat) (cflg : Nat) (fastRs : RStr) (engineRs : RSet)
+    (n flg nd ng : Nat),
+    (∀ c ∈ re, c ≠ 0) → simple re = some (lbeg, wbeg, wend, lend, Spec.encStr lcps) →
+    lcps ≠ [] → (∀ c ∈ lcps, Spec.ValidCp c ∧ c ≠ 10) → (∀ c ∈ bcps, Spec.ValidCp c ∧ c ≠ 10) →
+    rstrMake re cflg = some (some fastRs) → Rset.make [some re] cflg = some (some engineRs) →
+    1 ≤ nd → 6 ≤ ng →
+    rstrFind fastRs (Spec.encStr bcps ++ [10]) n flg nd ng =
+      Rset.find engineRs (Spec.encStr bcps ++ [10]) n flg nd ng
+
+theorem fast_equals_engine_full_holds : fast_equals_engine_full := by
+  intro re lbeg wbeg wend lend lcps bcps cflg fastRs engineRs n flg nd ng h1 h2 h3 h4 h5 h6 h7 h8 h9
+  exact fast_equals_engine h1 h2 h3 h4 cflg fastRs engineRs h6 h7 bcps h5 n flg nd ng h8 h9
+
+/-- consequence in the words of the property: same found/not-found answer, same match offsets -/
+theorem fast_equals_engine_offsets {re : Bytes} {lbeg wbeg wend lend : Bool} {lcps : List Nat}
+    (hnul : ∀ c ∈ re, c ≠ 0)
+    (hs : simple re = some (lbeg, wbeg, wend, lend, Spec.encStr lcps))
+    (hne : lcps ≠ []) (hl : ∀ c ∈ lcps, Spec.ValidCp c ∧ c ≠ 10)
+    (cflg : Nat) (fastRs : RStr) (engineRs : RSet)
+    (hfast : rstrMake re cflg = some (some fastRs))
+    (heng : Rset.make [some re] cflg = some (some engineRs))
+    (bcps : List Nat) (hb : ∀ c ∈ bcps, Spec.ValidCp c ∧ c ≠ 10)
+    (n flg nd ng : Nat) (hn : 1 ≤ n) (hnd : 1 ≤ nd) (hng : 6 ≤ ng) :
+    (∃ so : Nat,
+        rstrFind fastRs (Spec.encStr bcps ++ [10]) n flg nd ng =
+          some (0, fastGroups n so (Spec.encStr lcps).length, 0) ∧
+        Rset.find engineRs (Spec.encStr bcps ++ [10]) n flg nd ng =
+          some (0, fastGroups n so (Spec.encStr lcps).length, 0) ∧
+        (fastGroups n so (Spec.encStr lcps).length)[0]? = some (so : Int) ∧
+        (fastGroups n so (Spec.encStr lcps).length)[1]? = some ((so + (Spec.encStr lcps).length : Nat) : Int)) ∨
+    (rstrFind fastRs (Spec.encStr bcps ++ [10]) n flg nd ng = some (-1, [], 0) ∧
+     Rset.find engineRs (Spec.encStr bcps ++ [10]) n flg nd ng = some (-1, [], 0)) := by
+  have heq := fast_equals_engine hnul hs hne hl cflg fastRs engineRs hfast heng bcps hb n flg nd ng hnd hng
+  have hf : fastRs = fastOf lbeg wbeg wend lend (Spec.encStr lcps) cflg := by
+    unfold rstrMake at hfast
+    rw [hs] at hfast
+    simp only [Option.some.injEq] at hfast
+    exact hfast.symm
+  rcases rstrFind_literal fastRs (Spec.encStr lcps) (Spec.encStr bcps ++ [10]) (by rw [hf]; rfl) (by rw [hf]; rfl)
+    n flg nd ng with ⟨r, _, hr⟩ | ⟨_, hr⟩
+  · left
+    refine ⟨r, hr, by rw [← heq]; exact hr, ?_, ?_⟩ <;> simp [fastGroups, hn]
+  · right
+    exact ⟨hr, by rw [← heq]; exact hr⟩
+
+/-! ## examples -/
+
+-- `\<foo$` is taken as the literal `foo` with the word-start and line-end anchors
+example : simple [92, 60, 102, 111, 111, 36] = some (false, true, false, true, [102, 111, 111]) := by decide
+-- `fo*` is not
+example : simple [102, 111, 42] = none := by decide
+-- the fast path on the line "a foo\n"
+example : rstrFind (fastOf false true false true [102, 111, 111] 0) [97, 32, 102, 111, 111, 10] 2 0 256 64 =
+    some (0, [2, 5, -1, -1], 0) := by decide
+example : rstrFind (fastOf false true false true [102, 111, 111] 0) [97, 32, 102, 111, 111, 120, 10] 2 0 256 64 =
+    some (-1, [], 0) := by decide
+-- a non-ASCII literal: `é` (U+00E9 = c3 a9) on the line "aé\n"
+example (fastRs : RStr) (engineRs : RSet) (h1 : rstrMake [195, 169] 1 = some (some fastRs))
+    (h2 : Rset.make [some [195, 169]] 1 = some (some engineRs)) :
+    rstrFind fastRs (Spec.encStr [97, 233] ++ [10]) 1 0 256 64 =
+      Rset.find engineRs (Spec.encStr [97, 233] ++ [10]) 1 0 256 64 :=
+  fast_equals_engine (lcps := [233]) (lbeg := false) (wbeg := false) (wend := false) (lend := false)
+    (by decide) (by decide) (by decide) (by decide) 1 fastRs engineRs h1 h2
+    [97, 233] (by decide) 1 0 256 64 (by decide) (by decide)
+-- and the engine on the same line (through the agreement theorem)
+example (engineRs : RSet) (h : Rset.make [some [92, 60, 102, 111, 111, 36]] 0 = some (some engineRs)) :
+    Rset.find engineRs [97, 32, 102, 111, 111, 10] 2 0 256 64 = some (0, [2, 5, -1, -1], 0) := by
+  have := fast_equals_engine_ascii (re := [92, 60, 102, 111, 111, 36]) (by unfold Ascii; decide)
+    (by decide : simple _ = some (false, true, false, true, [102, 111, 111])) (by decide) (by decide)
+    0 (fastOf false true false true [102, 111, 111] 0) engineRs rfl h [97, 32, 102, 111, 111]
+    (by unfold Ascii; decide) (by decide) 2 0 256 64 (by decide) (by decide)
+  exact this.symm.trans (by decide)
+
 end Neatvi.Props.C12
